@@ -14,8 +14,12 @@ import (
 	"fmt"
 	"os"
 	"path/filepath"
+	"regexp"
 	"sort"
+	"strconv"
 	"strings"
+
+	"golang.org/x/net/html"
 
 	"verifharness/vlib"
 	"verifharness/vlib/render"
@@ -99,6 +103,7 @@ type tableSpec struct {
 	collapse bool
 	caption  string
 	cols     string // markup of col / colgroup elements
+	colW     []string // per column box, in order: the css width of the col or of its colgroup ("" = auto)
 	groups   []groupSpec
 	tags     []string
 }
@@ -141,26 +146,46 @@ func genTable(r *vlib.Rng, forceFixed bool) tableSpec {
 				w = fmt.Sprintf("width:%g%%", vlib.Pick(r, []float64{10, 25, 50, 20}))
 			}
 			if r.Chance(1, 3) {
-				fmt.Fprintf(&sb, `<colgroup span="%d" style="%s"></colgroup>`, r.Range(1, 3), w)
+				k := r.Range(1, 3)
+				fmt.Fprintf(&sb, `<colgroup span="%d" style="%s"></colgroup>`, k, w)
+				for j := 0; j < k; j++ {
+					t.colW = append(t.colW, strings.TrimPrefix(w, "width:"))
+				}
 			} else if r.Chance(1, 2) {
-				fmt.Fprintf(&sb, `<col span="%d" style="%s">`, r.Range(1, 3), w)
+				k := r.Range(1, 3)
+				fmt.Fprintf(&sb, `<col span="%d" style="%s">`, k, w)
+				for j := 0; j < k; j++ {
+					t.colW = append(t.colW, strings.TrimPrefix(w, "width:"))
+				}
 			} else {
-				fmt.Fprintf(&sb, `<colgroup><col style="%s"><col style="%s"></colgroup>`, w, vlib.Pick(r, []string{"", "width:40px", "width:30%"}))
+				w2 := vlib.Pick(r, []string{"", "width:40px", "width:30%"})
+				fmt.Fprintf(&sb, `<colgroup><col style="%s"><col style="%s"></colgroup>`, w, w2)
+				t.colW = append(t.colW, strings.TrimPrefix(w, "width:"), strings.TrimPrefix(w2, "width:"))
 			}
 		}
 		t.cols = sb.String()
 		t.tags = append(t.tags, "cols")
 	}
+	// 1 in 4 tables stresses the grid: several row groups (thead / tfoot anywhere in the document order, sometimes
+	// twice), more rows per group, many row-spanning cells, out-of-range span attributes
+	stress := r.Chance(1, 4)
 	ngroups := r.Range(1, 3)
+	if stress {
+		ngroups = r.Range(2, 4)
+	}
 	usedHead, usedFoot := false, false
 	for g := 0; g < ngroups; g++ {
 		gs := groupSpec{tag: "tbody"}
-		if r.Chance(1, 4) && !usedHead {
+		if r.Chance(1, 4) && (!usedHead || (stress && r.Chance(1, 3))) {
 			gs.tag, usedHead = "thead", true
-		} else if r.Chance(1, 4) && !usedFoot {
+		} else if r.Chance(1, 4) && (!usedFoot || (stress && r.Chance(1, 3))) {
 			gs.tag, usedFoot = "tfoot", true
 		}
-		for i, rows := 0, r.Range(1, 4); i < rows; i++ {
+		minRows := 1
+		if stress {
+			minRows = 2
+		}
+		for i, rows := 0, r.Range(minRows, 4); i < rows; i++ {
 			rs := rowSpec{}
 			if r.Chance(1, 6) {
 				rs.height = fmt.Sprintf("%dpx", r.Range(0, 12)*10)
@@ -170,8 +195,16 @@ func genTable(r *vlib.Rng, forceFixed bool) tableSpec {
 				if r.Chance(1, 3) {
 					c.colspan = r.Range(1, 4)
 				}
-				if r.Chance(1, 3) {
+				if r.Chance(1, 3) || (stress && r.Chance(1, 3)) {
 					c.rowspan = vlib.Pick(r, []int{0, 2, 2, 3, 5})
+				}
+				if stress && r.Chance(1, 12) {
+					// clamped by NewTableCellBox: colspan to [1, 1000], rowspan to [0, 65534]
+					if r.Bool() {
+						c.colspan = vlib.Pick(r, []int{0, -1, -3})
+					} else {
+						c.rowspan = vlib.Pick(r, []int{-1, -2, 65535, 70000})
+					}
 				}
 				switch r.Intn(6) {
 				case 0:
@@ -196,6 +229,9 @@ func genTable(r *vlib.Rng, forceFixed bool) tableSpec {
 			gs.rows = append(gs.rows, rs)
 		}
 		t.groups = append(t.groups, gs)
+	}
+	if stress {
+		t.tags = append(t.tags, "grid-stress")
 	}
 	if usedHead {
 		t.tags = append(t.tags, "thead")
@@ -281,6 +317,429 @@ func (t tableSpec) html() string {
 	return sb.String()
 }
 
+// ---------------------------------------------------------------- table structure and its grid
+
+// The table as the DOCUMENT gives it: row groups in document order, rows, cells with their span attributes.
+// For generated tables it comes from the generator's specification, for corpus files from the parsed HTML;
+// never from the boxes.
+type sCell struct {
+	colspanAttr, rowspanAttr int
+	width                    string // css width of the cell, "" = auto
+}
+type sGroup struct {
+	kind int // 0 tbody, 1 thead, 2 tfoot
+	rows [][]sCell
+}
+type tStruct struct {
+	ok   bool
+	gs   []sGroup
+	colW []string // css width of each column box ("" = auto)
+}
+
+func (t tableSpec) tstruct() tStruct { return tStruct{true, t.structure(), t.colW} }
+func (st tStruct) facts() gridFacts { return structGrid(st.gs, st.colW) }
+
+func (t tableSpec) structure() []sGroup {
+	var out []sGroup
+	for _, g := range t.groups {
+		sg := sGroup{}
+		switch g.tag {
+		case "thead":
+			sg.kind = 1
+		case "tfoot":
+			sg.kind = 2
+		}
+		for _, r := range g.rows {
+			row := []sCell{}
+			for _, c := range r.cells {
+				row = append(row, sCell{c.colspan, c.rowspan, c.width})
+			}
+			sg.rows = append(sg.rows, row)
+		}
+		out = append(out, sg)
+	}
+	return out
+}
+
+func intAttr(n *html.Node, key string) (int, bool) {
+	for _, a := range n.Attr {
+		if a.Key == key {
+			v, err := strconv.Atoi(strings.TrimSpace(a.Val))
+			if err != nil {
+				return 0, false
+			}
+			return v, true
+		}
+	}
+	return 1, true
+}
+
+var widthRe = regexp.MustCompile(`(?:^|;)\s*width\s*:\s*([^;]+)`)
+
+func styleWidth(n *html.Node) string {
+	for _, a := range n.Attr {
+		if a.Key == "style" {
+			if m := widthRe.FindStringSubmatch(a.Val); m != nil {
+				w := strings.TrimSpace(m[1])
+				if w == "auto" {
+					return ""
+				}
+				return w
+			}
+		}
+	}
+	return ""
+}
+
+// css widths of the column boxes of a <table> (col / colgroup children), in order
+func columnWidthsFromHTML(table *html.Node) []string {
+	var out []string
+	span := func(n *html.Node) int {
+		k, ok := intAttr(n, "span")
+		if !ok || k < 1 {
+			k = 1
+		}
+		return k
+	}
+	for c := table.FirstChild; c != nil; c = c.NextSibling {
+		if c.Type != html.ElementNode {
+			continue
+		}
+		switch c.Data {
+		case "col":
+			for j := 0; j < span(c); j++ {
+				out = append(out, styleWidth(c))
+			}
+		case "colgroup":
+			gw := styleWidth(c)
+			any := false
+			for cc := c.FirstChild; cc != nil; cc = cc.NextSibling {
+				if cc.Type == html.ElementNode && cc.Data == "col" {
+					any = true
+					w := styleWidth(cc)
+					if w == "" {
+						w = gw
+					}
+					for j := 0; j < span(cc); j++ {
+						out = append(out, w)
+					}
+				}
+			}
+			if !any {
+				for j := 0; j < span(c); j++ {
+					out = append(out, gw)
+				}
+			}
+		}
+	}
+	return out
+}
+
+// structure of the first <table> of a document made of thead / tbody / tfoot > tr > td only
+// (anything else: not a structure this harness can state, ok = false)
+func structureFromHTML(src string) (gsOut []sGroup, colW []string, okOut bool) {
+	doc, err := html.Parse(strings.NewReader(src))
+	if err != nil {
+		return nil, nil, false
+	}
+	var table *html.Node
+	var find func(n *html.Node)
+	find = func(n *html.Node) {
+		if table != nil {
+			return
+		}
+		if n.Type == html.ElementNode && n.Data == "table" {
+			table = n
+			return
+		}
+		for c := n.FirstChild; c != nil; c = c.NextSibling {
+			find(c)
+		}
+	}
+	find(doc)
+	if table == nil {
+		return nil, nil, false
+	}
+	elements := func(n *html.Node) (out []*html.Node, ok bool) {
+		for c := n.FirstChild; c != nil; c = c.NextSibling {
+			switch c.Type {
+			case html.ElementNode:
+				out = append(out, c)
+			case html.TextNode:
+				if strings.TrimSpace(c.Data) != "" {
+					return nil, false
+				}
+			}
+		}
+		return out, true
+	}
+	var out []sGroup
+	groups, ok := elements(table)
+	if !ok {
+		return nil, nil, false
+	}
+	for _, g := range groups {
+		sg := sGroup{}
+		switch g.Data {
+		case "caption", "colgroup", "col":
+			continue
+		case "tbody":
+		case "thead":
+			sg.kind = 1
+		case "tfoot":
+			sg.kind = 2
+		default:
+			return nil, nil, false
+		}
+		rows, ok := elements(g)
+		if !ok {
+			return nil, nil, false
+		}
+		for _, r := range rows {
+			if r.Data != "tr" {
+				return nil, nil, false
+			}
+			cells, ok := elements(r)
+			if !ok {
+				return nil, nil, false
+			}
+			row := []sCell{}
+			for _, c := range cells {
+				if c.Data != "td" {
+					return nil, nil, false
+				}
+				cs, ok1 := intAttr(c, "colspan")
+				rs, ok2 := intAttr(c, "rowspan")
+				if !ok1 || !ok2 {
+					return nil, nil, false
+				}
+				row = append(row, sCell{cs, rs, styleWidth(c)})
+			}
+			sg.rows = append(sg.rows, row)
+		}
+		out = append(out, sg)
+	}
+	return out, columnWidthsFromHTML(table), true
+}
+
+func structureTerm(gs []sGroup) string {
+	var groups []string
+	for _, g := range gs {
+		var rows []string
+		for _, r := range g.rows {
+			var cells []string
+			for _, c := range r {
+				cells = append(cells, fmt.Sprintf("(GC %s %s)", vlib.Z(c.colspanAttr), vlib.Z(c.rowspanAttr)))
+			}
+			rows = append(rows, "["+strings.Join(cells, "; ")+"]")
+		}
+		groups = append(groups, fmt.Sprintf("(GG %d [%s])", g.kind, strings.Join(rows, "; ")))
+	}
+	return "[" + strings.Join(groups, "; ") + "]"
+}
+
+// Structural facts used ONLY for tags (known-finding matchers, distribution) and for the input norig of the
+// width contract.  This is a second statement of the slot rule (CSS 2.1 17.5 / HTML table model: each cell on the
+// first column of its row not taken by a cell spanning from a row above of the same group); Check/C13.v recomputes
+// the two numbers with the proved model and reports code 15 when they differ.
+type placedCell struct{ x, y, w, h int } // y: row index in the group
+type gridFacts struct {
+	width, norig int
+	groups       [][]placedCell // in processing order: header, bodies, footer
+	// a colspan>1 cell whose columns meet a slot taken by a cell row-spanning from above
+	colspanOverRowspan bool
+	// a column of the grid in which no cell originates
+	columnWithoutOrigin bool
+	// a row-spanning cell in a group that is not the last one processed
+	multiGroupRowspan bool
+	// every column of the grid has a width of its own: from its col / colgroup element, from a cell with colspan 1
+	// originating in it, or (percentages only) from a column-spanning cell covering it
+	allColumnsDetermined bool
+}
+
+func clampSpan(v, lo, hi int) int {
+	if v < lo {
+		v = lo
+	}
+	if v > hi {
+		v = hi
+	}
+	return v
+}
+
+func orderGroups(gs []sGroup) []sGroup {
+	var header, footer *sGroup
+	var bodies []sGroup
+	for i := range gs {
+		g := gs[i]
+		if g.kind == 1 && header == nil {
+			header = &g
+		} else if g.kind == 2 && footer == nil {
+			footer = &g
+		} else {
+			bodies = append(bodies, g)
+		}
+	}
+	var out []sGroup
+	if header != nil {
+		out = append(out, *header)
+	}
+	out = append(out, bodies...)
+	if footer != nil {
+		out = append(out, *footer)
+	}
+	return out
+}
+
+func structGrid(gs []sGroup, colW []string) gridFacts {
+	f := gridFacts{}
+	origin := map[int]bool{}
+	determined := map[int]bool{}
+	for j, w := range colW {
+		if w != "" {
+			determined[j] = true
+		}
+	}
+	ordered := orderGroups(gs)
+	for gi, g := range ordered {
+		n := len(g.rows)
+		// taken[y][x]: slot covered by a cell of a row above
+		taken := make([]map[int]bool, n)
+		for i := range taken {
+			taken[i] = map[int]bool{}
+		}
+		var placed []placedCell
+		for y, row := range g.rows {
+			x := 0
+			for _, c := range row {
+				for taken[y][x] {
+					x++
+				}
+				w := clampSpan(c.colspanAttr, 1, 1000)
+				h := clampSpan(c.rowspanAttr, 0, 65534)
+				if h == 0 || h > n-y {
+					h = n - y
+				}
+				for xx := x; xx < x+w; xx++ {
+					if taken[y][xx] {
+						f.colspanOverRowspan = true
+					}
+				}
+				for yy := y + 1; yy < y+h; yy++ {
+					for xx := x; xx < x+w; xx++ {
+						taken[yy][xx] = true
+					}
+				}
+				if h > 1 && gi+1 < len(ordered) {
+					f.multiGroupRowspan = true
+				}
+				placed = append(placed, placedCell{x, y, w, h})
+				origin[x] = true
+				if c.width != "" {
+					if w == 1 {
+						determined[x] = true
+					} else if strings.HasSuffix(c.width, "%") {
+						for xx := x; xx < x+w; xx++ {
+							determined[xx] = true
+						}
+					}
+				}
+				x += w
+				if x > f.width {
+					f.width = x
+				}
+			}
+		}
+		f.groups = append(f.groups, placed)
+	}
+	f.norig = len(origin)
+	f.columnWithoutOrigin = f.norig < f.width
+	f.allColumnsDetermined = f.width > 0
+	for j := 0; j < f.width; j++ {
+		if !determined[j] {
+			f.allColumnsDetermined = false
+		}
+	}
+	return f
+}
+
+// the grid the implementation assigned (BuildFormattingStructure), as the term Check/C13.v compares
+func observedGridTerm(tb *bo.TableBox, desc *strings.Builder) string {
+	var groups []string
+	for gi, g := range tb.Children {
+		role := 0
+		if g.Box().IsHeader {
+			role = 1
+		} else if g.Box().IsFooter {
+			role = 2
+		}
+		var rows []string
+		for ri, r := range g.Box().Children {
+			var cells []string
+			for ci, c := range r.Box().Children {
+				f := c.Box()
+				cells = append(cells, fmt.Sprintf("(GO %s %s %s)", vlib.Z(f.GridX), vlib.Z(f.Colspan), vlib.Z(f.Rowspan)))
+				fmt.Fprintf(desc, "group %d (role %d) row %d cell %d: GridX=%d Colspan=%d Rowspan=%d\n", gi, role, ri, ci, f.GridX, f.Colspan, f.Rowspan)
+			}
+			rows = append(rows, "["+strings.Join(cells, "; ")+"]")
+		}
+		groups = append(groups, fmt.Sprintf("(GOG %d [%s])", role, strings.Join(rows, "; ")))
+	}
+	return "[" + strings.Join(groups, "; ") + "]"
+}
+
+func structureDesc(gs []sGroup) string {
+	var sb strings.Builder
+	names := []string{"tbody", "thead", "tfoot"}
+	for gi, g := range gs {
+		for ri, r := range g.rows {
+			fmt.Fprintf(&sb, "%s#%d row %d:", names[g.kind], gi, ri)
+			for _, c := range r {
+				fmt.Fprintf(&sb, " td[colspan=%d rowspan=%d]", c.colspanAttr, c.rowspanAttr)
+			}
+			sb.WriteString("\n")
+		}
+	}
+	return sb.String()
+}
+
+func structTags(f gridFacts, gs []sGroup) []string {
+	tags := []string{fmt.Sprintf("row-groups:%d", len(gs))}
+	if f.multiGroupRowspan {
+		tags = append(tags, "struct:rowspan-before-later-group")
+	}
+	if f.colspanOverRowspan {
+		tags = append(tags, "struct:colspan-over-rowspan")
+	}
+	if f.columnWithoutOrigin {
+		tags = append(tags, "struct:column-without-originating-cell")
+	}
+	return tags
+}
+
+// one CGrid case: structure vs the grid of the table box before layout; ncols = number of columns the layout used
+// (-1: no layout run)
+func gridCase(src string, st tStruct, tb *bo.TableBox, auto bool, ncols int, baseTags []string, kind string) vlib.Case {
+	gs := st.gs
+	f := st.facts()
+	var desc strings.Builder
+	obs := observedGridTerm(tb, &desc)
+	tags := append([]string{}, baseTags...)
+	sort.Strings(tags)
+	nontrivial := false
+	for _, g := range f.groups {
+		for _, c := range g {
+			if c.h > 1 || c.w > 1 {
+				nontrivial = true
+			}
+		}
+	}
+	return vlib.Case{Kind: kind + "-grid", Tags: tags, Nontrivial: nontrivial,
+		Coq: fmt.Sprintf("CGrid %s %s %s %s %s %s", structureTerm(gs), obs, vlib.Bool(auto), vlib.Z(ncols), vlib.Z(f.width), vlib.Z(f.norig)),
+		Desc: map[string]interface{}{"html": src, "structure": structureDesc(gs), "implementation_grid": desc.String(),
+			"auto_layout": auto, "columns_after_layout": ncols}}
+}
+
 // ---------------------------------------------------------------- box tree before layout
 
 func buildBoxes(src string) (bo.Box, error) {
@@ -320,7 +779,7 @@ func findWrapper(b bo.Box) bo.Box {
 
 // ---------------------------------------------------------------- fixed layout (unit level)
 
-func fixedCase(src string, tags []string, kind string) (vlib.Case, bool) {
+func fixedCase(src string, tags []string, kind string, st tStruct, w *vlib.Writer) (vlib.Case, bool) {
 	root, err := buildBoxes(src)
 	if err != nil {
 		return vlib.Case{}, false
@@ -331,6 +790,10 @@ func fixedCase(src string, tags []string, kind string) (vlib.Case, bool) {
 	}
 	table := wrapper.Box().GetWrappedTable()
 	tb := table.Table()
+	if st.ok && w != nil {
+		tags = append(append([]string{}, tags...), structTags(st.facts(), st.gs)...)
+		w.Add(gridCase(src, st, tb, false, -1, tags, kind))
+	}
 	layout.VerifC13ResolveTable(table, pageWidth)
 	w0, ok := mf(tb.Width)
 	if !ok || tb.Style.GetTableLayout() != "fixed" {
@@ -390,14 +853,14 @@ var fonts text.FontConfiguration
 
 type preCell struct{ gridx, colspan, rowspan int }
 
-func preLayoutGrid(src string) ([][][]preCell, bool) {
+func preLayoutGrid(src string) ([][][]preCell, *bo.TableBox, bool) {
 	root, err := buildBoxes(src)
 	if err != nil {
-		return nil, false
+		return nil, nil, false
 	}
 	wrapper := findWrapper(root)
 	if wrapper == nil {
-		return nil, false
+		return nil, nil, false
 	}
 	tb := wrapper.Box().GetWrappedTable().Table()
 	var out [][][]preCell
@@ -412,7 +875,7 @@ func preLayoutGrid(src string) ([][][]preCell, bool) {
 		}
 		out = append(out, rows)
 	}
-	return out, true
+	return out, tb, true
 }
 
 func findTable(b bo.Box) *bo.TableBox {
@@ -427,21 +890,36 @@ func findTable(b bo.Box) *bo.TableBox {
 	return nil
 }
 
-func layoutCases(src string, baseTags []string, kind string, w *vlib.Writer) {
-	pre, ok := preLayoutGrid(src)
+func layoutCases(src string, baseTags []string, kind string, st tStruct, w *vlib.Writer) {
+	hasStruct, gs := st.ok, st.gs
+	pre, preTb, ok := preLayoutGrid(src)
 	if !ok {
 		return
+	}
+	var facts gridFacts
+	if hasStruct {
+		facts = st.facts()
+		baseTags = append(append([]string{}, baseTags...), structTags(facts, gs)...)
 	}
 	var pages []*bo.PageBox
 	o := render.GuardTimeout(20e9, func() {
 		pages, _ = render.Layout(src, nil, false, true, fonts)
 	})
-	if o.Status != "ok" || len(pages) != 1 {
-		// crashes / hangs of the whole layout belong to C01; multi-page tables are out of scope
-		return
+	var tb *bo.TableBox
+	if o.Status == "ok" && len(pages) == 1 {
+		tb = findTable(pages[0])
 	}
-	tb := findTable(pages[0])
+	if hasStruct {
+		// the grid of the structure against the grid the boxes got, and the number of columns the auto layout used
+		auto, ncols := false, -1
+		if tb != nil {
+			auto = !(tb.Style.GetTableLayout() == "fixed" && tb.Style.GetWidth().S != "auto")
+			ncols = len(tb.ColumnWidths)
+		}
+		w.Add(gridCase(src, st, preTb, auto, ncols, baseTags, kind))
+	}
 	if tb == nil || tb.Style.GetDirection() != "ltr" {
+		// crashes / hangs of the whole layout belong to C01; multi-page tables are out of scope
 		return
 	}
 	collapse := tb.Style.GetBorderCollapse() == "collapse"
@@ -556,7 +1034,8 @@ func layoutCases(src string, baseTags []string, kind string, w *vlib.Writer) {
 			spec = pageWidth * ws.Value / 100
 		}
 	}
-	// columns in which at least one cell originates
+	// columns in which at least one cell originates: from the document structure when the harness knows it
+	// (Check/C13.v validates the number, code 15 of the CGrid case), otherwise from the boxes
 	orig := map[int]bool{}
 	for _, g := range pre {
 		for _, r := range g {
@@ -567,21 +1046,90 @@ func layoutCases(src string, baseTags []string, kind string, w *vlib.Writer) {
 			}
 		}
 	}
-	if len(orig) < len(widths) {
-		tags = append(tags, "columns-without-originating-cell")
-	}
+	norig := len(orig)
 	fixedUsed := tb.Style.GetTableLayout() == "fixed" && hasSpec
 	fk := 0
 	if fixedUsed {
 		fk = 1
 	}
-	da := map[string]interface{}{"specified_width": spec, "has_specified": hasSpec, "fixed": fixedUsed, "columns_with_originating_cell": len(orig)}
+	tags = append([]string{}, tags...)
+	if hasStruct {
+		norig = facts.norig
+		// the two constructs of the known findings, stated on the document structure
+		if !fixedUsed && bsx > 0 && facts.columnWithoutOrigin {
+			// auto layout, separated borders with horizontal spacing, a column (created by a colspan) in which no cell originates
+			tags = append(tags, "struct:auto-layout+spacing+column-without-originating-cell")
+		}
+		if !fixedUsed && hasSpec && facts.allColumnsDetermined {
+			// auto layout of a table with a specified width all of whose columns are constrained (col / colgroup / cell width)
+			// or have a percentage: no column can take the excess width
+			tags = append(tags, "struct:auto-layout+specified-width+all-columns-constrained-or-percentage")
+		}
+		sort.Strings(tags)
+	}
+	da := map[string]interface{}{"specified_width": spec, "has_specified": hasSpec, "fixed": fixedUsed, "columns_with_originating_cell": norig}
 	for k, v := range common {
 		da[k] = v
 	}
 	w.Add(vlib.Case{Kind: kind + "-widths", Tags: tags, Nontrivial: len(widths) > 1,
-		Coq:  fmt.Sprintf("CWidths %d %d %s %s %s %s %s", fk, len(orig), q(tableW), q(spec), vlib.Bool(hasSpec), q(bsx), qs(widths)),
+		Coq:  fmt.Sprintf("CWidths %d %d %s %s %s %s %s", fk, norig, q(tableW), q(spec), vlib.Bool(hasSpec), q(bsx), qs(widths)),
 		Desc: da})
+}
+
+// ---------------------------------------------------------------- auto layout (unit level)
+
+// autoTableLayout run on the first table of the document by the hook html/layout/verif_export_c13_auto.go: inputs = the
+// preferred widths tableAndColumnsPreferredWidths computed (not modelled), outputs = column widths and used table width
+func autoCase(src string, tags []string, kind string) (vlib.Case, bool) {
+	h, err := tree.NewHTML(utils.InputString(src), baseURL, utils.DefaultUrlFetcher, "")
+	if err != nil {
+		return vlib.Case{}, false
+	}
+	h.UAStyleSheet = tree.TestUAStylesheet
+	var io layout.VerifC13AutoIO
+	ok := false
+	o := render.GuardTimeout(20e9, func() { io, ok = layout.VerifC13AutoTableLayout(h, fonts, pageWidth) })
+	if o.Status != "ok" || !ok {
+		// a crash in the preferred widths or in the layout itself is C01's subject; the inputs are not known here
+		return vlib.Case{}, false
+	}
+	n := len(io.Mins)
+	if len(io.Maxs) != n || len(io.Percentages) != n || len(io.Constrained) != n || len(io.HasCell) != n || len(io.NoMaxContentCells) != n {
+		return vlib.Case{}, false
+	}
+	all := []Fl{io.WidthIn, io.Available, io.TableMin, io.TableMax, io.TotalSpacing, io.WidthOut}
+	all = append(append(append(append(all, io.Mins...), io.Maxs...), io.Percentages...), io.ColumnWidths...)
+	if !finite(all...) {
+		return vlib.Case{}, false
+	}
+	width := "ON"
+	if io.HasWidth {
+		width = "(OS " + q(io.WidthIn) + ")"
+	}
+	cols := make([]string, n)
+	for i := range cols {
+		cols[i] = fmt.Sprintf("(AC %s %s %s %s %s %s)", q(io.Mins[i]), q(io.Maxs[i]), q(io.Percentages[i]),
+			vlib.Bool(io.Constrained[i]), vlib.Bool(io.HasCell[i]), vlib.Bool(io.NoMaxContentCells[i]))
+	}
+	tags = append([]string{}, tags...)
+	if io.Available-io.TotalSpacing > 0 && n > 0 {
+		var sumMax Fl
+		for _, m := range io.Maxs {
+			sumMax += m
+		}
+		if io.HasWidth && io.WidthIn-io.TotalSpacing > sumMax {
+			tags = append(tags, "auto:excess-width")
+		}
+	}
+	sort.Strings(tags)
+	coq := fmt.Sprintf("CAuto %s %s %s %s %s [%s] 0 %s %s", width, q(io.Available), q(io.TableMin), q(io.TableMax), q(io.TotalSpacing),
+		strings.Join(cols, "; "), qs(io.ColumnWidths), q(io.WidthOut))
+	return vlib.Case{Kind: kind + "-auto", Coq: coq, Tags: tags, Nontrivial: n > 1,
+		Desc: map[string]interface{}{"html": src, "table_width_in": io.WidthIn, "has_width": io.HasWidth, "available": io.Available,
+			"table_min_content": io.TableMin, "table_max_content": io.TableMax, "total_spacing": io.TotalSpacing,
+			"column_min": io.Mins, "column_max": io.Maxs, "column_percentages": io.Percentages, "constrained": io.Constrained,
+			"has_cell": io.HasCell, "no_max_content_cells": io.NoMaxContentCells,
+			"column_widths_out": io.ColumnWidths, "table_width_out": io.WidthOut}}, true
 }
 
 // ---------------------------------------------------------------- main
@@ -603,21 +1151,29 @@ func main() {
 			continue
 		}
 		tags := []string{"corpus:" + filepath.Base(f)}
-		if c, ok := fixedCase(string(b), tags, "corpus-fixed"); ok {
+		gs, colW, hasStruct := structureFromHTML(string(b))
+		st := tStruct{hasStruct, gs, colW}
+		if c, ok := fixedCase(string(b), tags, "corpus-fixed", tStruct{}, nil); ok {
 			w.Add(c)
 		}
-		layoutCases(string(b), tags, "corpus", w)
+		layoutCases(string(b), tags, "corpus", st, w)
+		if c, ok := autoCase(string(b), tags, "corpus"); ok {
+			w.Add(c)
+		}
 	}
 	for i := 0; i < *n; i++ {
 		r := rng.Fork()
 		if i%3 == 0 {
 			t := genTable(r, true)
-			if c, ok := fixedCase(t.html(), t.tags, "fixed"); ok {
+			if c, ok := fixedCase(t.html(), t.tags, "fixed", t.tstruct(), w); ok {
 				w.Add(c)
 			}
 		} else {
 			t := genTable(r, false)
-			layoutCases(t.html(), t.tags, "layout", w)
+			layoutCases(t.html(), t.tags, "layout", t.tstruct(), w)
+			if c, ok := autoCase(t.html(), t.tags, "layout"); ok {
+				w.Add(c)
+			}
 		}
 	}
 }
